@@ -145,6 +145,21 @@ fn check(c: &SplitCase, obs: &mut Obs) -> Verdict {
     for (y, v) in &own { match got.get(y) { Some(g) if g.close(v, &tol) => {} other => return Verdict::Fail(format!("aggregate {y}: shows {:?} but the securities' own {y} totals add up to {}\n{csv}", other.map(|r| r.to_string()), v)) } }
     for y in got.keys() { if !own.contains_key(y) { return Verdict::Fail(format!("aggregate has a row for {y} that no security's table has\n{csv}")); } }
     if !gab.0.close(&own_total, &tol) { return Verdict::Fail(format!("aggregate total {} but the securities' own totals add up to {}\n{csv}", gab.0, own_total)); }
+    // the --csv-output-dir mode: a security that fails (even at its very first row) must not keep the files of the others, or the
+    // aggregate file, from being written; the healthy securities' files are the ones a run without the failing half writes
+    if sab.secs.values().any(|t| !t.errors.is_empty()) && sa.secs.values().all(|t| t.errors.is_empty()) {
+        let dir_of = |cs: &(LedgerCase, Vec<u8>)| -> Result<Vec<(String, String)>, Verdict> {
+            let mut o = opts.clone(); o.symbol_base = crate::gen::symbol_base_strings(&cs.0.opening);
+            match crate::observe::run_csv_dir(&files_of(&cs.0, &cs.1), &o) { Ok((f, _)) => Ok(f), Err(RunErr::Panic(p)) => Err(classify_panic(&p, &csv)), Err(RunErr::Run(e)) | Err(RunErr::BadInit(e)) => Err(Verdict::Fail(format!("--csv-output-dir run failed: {e}\n{csv}"))) }
+        };
+        let fa = match dir_of(&sub_case(&c.all, &c.layout, &a)) { Ok(f) => f, Err(v) => return v };
+        let fab = match dir_of(&(c.all.clone(), c.layout.clone())) { Ok(f) => f, Err(v) => return v };
+        for (name, text) in &fa {
+            if name.to_lowercase().contains("aggregate") { if !fab.iter().any(|(n, _)| n == name) { return Verdict::Fail(format!("--csv-output-dir: {name} is not written when another security fails (files written: {:?})\n{csv}", fab.iter().map(|f| &f.0).collect::<Vec<_>>())); } continue; }
+            match fab.iter().find(|(n, _)| n == name) { None => return Verdict::Fail(format!("--csv-output-dir: {name} is written when its securities run alone but not next to a failing security (files written: {:?})\n{csv}", fab.iter().map(|f| &f.0).collect::<Vec<_>>())), Some((_, t2)) => { if t2.to_lowercase() != text.to_lowercase() /* affiliate display spelling: first spelling seen in the run wins */ { return Verdict::Fail(format!("--csv-output-dir: {name} differs next to a failing security\n{csv}")); } } }
+        }
+        obs.class("csv-output-dir-next-to-a-failing-security");
+    }
     let b_failed = sb.secs.values().any(|t| !t.errors.is_empty());
     let a_has_gain = sa.secs.values().any(|t| t.rows.iter().any(|r| r[9] != "-"));
     if b_failed && a_has_gain { obs.nt("B-fails-bookkeeping-and-A-has-gains"); }
@@ -157,7 +172,7 @@ fn check(c: &SplitCase, obs: &mut Obs) -> Verdict {
 }
 
 pub fn def() -> PropDef {
-    let mut d = PropDef::new("C08", "a generated multi-security input is split into two inputs A and B over disjoint symbols (B optionally carrying a planted bookkeeping failure from the C04 list, or a split combination the tool refuses), keeping the original interleaving for A+B (a third of the cases spread the rows over two or three input files, the same spread in all three runs; some start from an exchange-rate cache as an earlier run in the middle of the history would have left it); three runs. Every cell of every table of A (resp. B) must be identical in A+B; aggregate(A+B) per year = aggregate(A) + aggregate(B) = sum of the accepted securities' own yearly footers, within 1e-9; A+B must not fail as a whole when only one half has a problem. Non-trivial = B contains a bookkeeping failure and A has at least one gain-bearing row. Distinct = distinct case content.");
+    let mut d = PropDef::new("C08", "a generated multi-security input is split into two inputs A and B over disjoint symbols (B optionally carrying a planted bookkeeping failure from the C04 list, or a split combination the tool refuses), keeping the original interleaving for A+B (a third of the cases spread the rows over two or three input files, the same spread in all three runs; some start from an exchange-rate cache as an earlier run in the middle of the history would have left it); three runs. Every cell of every table of A (resp. B) must be identical in A+B; aggregate(A+B) per year = aggregate(A) + aggregate(B) = sum of the accepted securities' own yearly footers, within 1e-9; A+B must not fail as a whole when only one half has a problem; with a failing half, --csv-output-dir must still write the healthy securities' files (identical to a run without the failing half) and the aggregate file. Non-trivial = B contains a bookkeeping failure and A has at least one gain-bearing row. Distinct = distinct case content.");
     d.assumptions = vec!["affiliate display spelling is normalised (first spelling seen wins in the tool; not a figure)"];
     d.subs.push(Box::new(Sub::<SplitCase> { name: "split", cases_quick: 36_000, cases_thorough: 500_000, strategy: Box::new(strategy), to_json: SplitCase::to_json, from_json: SplitCase::from_json, check }));
     d
